@@ -33,6 +33,12 @@ def rterm(x):
 def neq(S, a, b, tol=None):
     """'a differs from b': exact in symbolic mode, beyond tol (absolute, a Fraction/float) in concrete mode."""
     if S.symbolic or tol is None:
+        if S.symbolic and z3.is_expr(a) and z3.is_expr(b):
+            # polynomial normal form first: identical polynomials need no solver work
+            d = z3.simplify(a - b, som=True, mul_to_power=True)
+            if z3.is_rational_value(d) and d.numerator_as_long() == 0:
+                return z3.BoolVal(False)
+            return d != 0
         return a != b
     t = RV(Fraction(tol))
     d = a - b
@@ -187,3 +193,33 @@ def compare_signals(S, sym_out, CS, conc_out, rtol=1e-5, time_tol=1e-8):
                 if len(problems) > 4:
                     return problems
     return problems
+
+
+def cis(S, phi):
+    """exp(2 pi i phi) as (re, im) terms; same canonicalisation as the code-side exp (pbsym.core.cis_cycles)."""
+    c = K.cis_cycles(phi) if S.symbolic else K.cis_cycles(phi, ctx=None)
+    return c.re, c.im
+
+
+def cmul(a, b):
+    return (a[0] * b[0] - a[1] * b[1], a[0] * b[1] + a[1] * b[0])
+
+
+def cadd(a, b):
+    return (a[0] + b[0], a[1] + b[1])
+
+
+def dft_terms(col, inverse=False, S=None):
+    """Exact DFT of a list of (re, im) terms using exact roots of unity (len(col) | 24)."""
+    N = len(col)
+    out = []
+    sgn = 1 if inverse else -1
+    for k in range(N):
+        acc = (z3.RealVal(0), z3.RealVal(0))
+        for m in range(N):
+            w = K.root_of_unity(N, sgn * k * m)
+            acc = cadd(acc, cmul(col[m], (w.re, w.im)))
+        if inverse:
+            acc = (acc[0] / N, acc[1] / N)
+        out.append(acc)
+    return out
